@@ -18,7 +18,7 @@ META = {
     "remove, add to the same position}; z3 proves that each bar's fee is the kernel oracle with the path starting at the PREVIOUS "
     "bar's close whatever the script did, that same-bar operations enter only through own liquidity in the share, that liquidity "
     "added in a bar earns in that bar, and share == own/(pool+own) for a single position and never more with two.",
-    "bounds": ["(a) all ticks in [-887272, 887272], liquidity/volumes in [0, 1e30], 3 decimals pairs, fee tiers 0.05 % / 0.3 % / 1 %", "(b) 3 bars, <= 2 positions, close ticks from a 5-point boundary grid around the range (all 25 consecutive pairs), deposit amounts / volumes / pool liquidity symbolic, both quote orientations"],
+    "bounds": ["(a) all ticks in [-887272, 887272], liquidity/volumes in [0, 1e30], 3 decimals pairs, fee tiers 0.05 % / 0.3 % / 1 %", "(b) 3 bars, <= 2 positions, close ticks from a 5-point boundary grid around the range (all 25 consecutive pairs), deposit amounts / volumes / pool liquidity symbolic, both quote orientations; the same grid moved so that one close is tick 0 exactly (equal decimals); a second, idle market registered before the pool in the same broker"],
     "outside": ["more than 3 bars / 2 positions", "close ticks outside the grid in the bar-loop part (the kernel part covers all ticks)", "bar 0 (no previous close exists): only 0 <= fee <= full-weight fee is required there"],
     "assumptions": ["Decimal modelled as exact reals", "frame cells: ticks int64, liquidity and volumes Decimal in the witness runs (the dtypes the repo's loader yields)"],
 }
